@@ -158,6 +158,16 @@ func stressInProcess() {
 		if k >= 2 && h%2 == 1 {
 			urls[1] = fmt.Sprintf("http://crl.example/%d/0.CRL", h) // differs from urls[0] in letter case only: still another URL
 		}
+		if k >= 2 && h%4 == 2 {
+			// distribution points that differ in the query string only (one servlet publishing the CRLs of several issuers),
+			// and one that differs in the user-info part only: other URLs
+			urls[0] = fmt.Sprintf("http://crl.example/%d/certdist?cmd=crl&issuer=CN%%3DIssuing+CA+A", h)
+			urls[1] = fmt.Sprintf("http://crl.example/%d/certdist?cmd=crl&issuer=CN%%3DIssuing+CA+B", h)
+			if k >= 3 {
+				urls[2] = fmt.Sprintf("http://mirror@crl.example/%d/certdist?cmd=crl&issuer=CN%%3DIssuing+CA+A", h)
+			}
+			r.Event("histories-over-urls-that-differ-in-query-or-user-info-only")
+		}
 		writers, setsEach := 3, r.N(40, 50)
 		sp := hist.RunSpec{Dir: dir, Proc: 0, URLs: urls, BundleDir: bundleDir, Readers: 5, ReadsEach: r.N(110, 140),
 			SleepMaxUS: []int{0, 60, 200}[h%3], Seed: rng.U64(), SharedCache: h%2 == 0}
@@ -291,6 +301,35 @@ func largeEntries() {
 	report(findings, "large-entries", nil)
 	addStats("large", st)
 	r.Eval("large-entries-history")
+	// a bundle whose base AND delta CRL are each just below what a fetcher accepts (25 MiB of DER each), stored over the
+	// smaller entry of the same URL: once Set has returned nil, a read does not yield the older bundle
+	{
+		idMu.Lock()
+		big := nextID
+		nextID++
+		idMu.Unlock()
+		os.WriteFile(filepath.Join(bundleDir, fmt.Sprintf("%d.der", big)), lib.MintBigCRL(big, far, 25<<20, 7).Raw, 0o644)
+		os.WriteFile(filepath.Join(bundleDir, fmt.Sprintf("%d.delta.der", big)), lib.MintBigCRL(big+1_000_000_000, far, 25<<20, 8).Raw, 0o644)
+		url := "http://crl.example/large-both.crl"
+		small := mint(2000, true)
+		c, _ := crl.NewFileCache(dir)
+		if err := c.Set(ctx, url, bundle(small)); err != nil {
+			panic(err)
+		}
+		serr := c.Set(ctx, url, bundle(big))
+		g := inprocGet(dir, url)
+		r.Eval("large-base-and-delta-over-an-older-entry")
+		r.Event("large-base-and-delta-stores")
+		if serr == nil && g.ID != big {
+			r.Violation(map[string]string{"kind": "completed-set-not-visible", "monitor": "large-entries"},
+				fmt.Sprintf("Set(%d: base 25 MiB + delta 25 MiB) over the entry %d returned nil, a read started afterwards yields %d (err=%q)", big, small, g.ID, g.Err), map[string]any{"read": g})
+		} else if g.ID != big && g.ID != small || (g.ID > 0 && !g.Bytes) {
+			r.Violation(map[string]string{"kind": "read-after-failed-set", "monitor": "large-entries"},
+				fmt.Sprintf("Set(%d) failed with %v; a read yields %d (bytes ok=%v err=%q), admitted: %d or %d", big, serr, g.ID, g.Bytes, g.Err, small, big), map[string]any{"read": g})
+		}
+		os.Remove(filepath.Join(bundleDir, fmt.Sprintf("%d.der", big)))
+		os.Remove(filepath.Join(bundleDir, fmt.Sprintf("%d.delta.der", big)))
+	}
 	os.RemoveAll(dir)
 	for _, id := range ids {
 		os.Remove(filepath.Join(bundleDir, fmt.Sprintf("%d.der", id)))
@@ -1000,6 +1039,26 @@ func faultsByFileSizeLimit() {
 				afterKill(dir, url, oldID, newID, err == nil, other, otherID, "fault-by-file-size-limit", map[string]any{"limit_bytes": lim, "bundle_bytes": pad, "set_reported_error": err != nil})
 				os.RemoveAll(dir)
 			}
+		}
+	}
+	// the same fault for the first store after the cache directory was cleaned away under a live cache value: whatever
+	// Set makes of the missing directory, a later read finds a miss or the complete new bundle
+	for _, lim := range []int{1, 200, 4096} {
+		for _, pad := range []int{3000, 120000} {
+			tag := fmt.Sprintf("fsize-dir-cleaned-%d-%d", lim, pad)
+			dir, url, other, _, _ := prepCrashDir(tag, true, 1500)
+			newID := mint(pad, false)
+			cmd := exec.Command(workerBin, "cache-set", dir, url, bundleDir, fmt.Sprint(newID))
+			cmd.Env = append(os.Environ(), fmt.Sprintf("VERIF_FSIZE_LIMIT=%d", lim), "VERIF_REMOVE_DIR=1")
+			out, err := cmd.CombinedOutput()
+			if err != nil && !strings.Contains(string(out), "set failed") {
+				r.Inconclusive(fmt.Sprintf("file-size-limit run %s: worker failed on its own: %s", tag, out))
+				continue
+			}
+			r.Eval("fault|" + tag)
+			r.Event("fault-points-after-the-directory-was-cleaned")
+			afterKill(dir, url, 0, newID, err == nil, other, 0, "fault-by-file-size-limit-after-directory-cleaned", map[string]any{"limit_bytes": lim, "bundle_bytes": pad, "set_reported_error": err != nil, "directory_removed_before_set": true})
+			os.RemoveAll(dir)
 		}
 	}
 }
